@@ -27,6 +27,7 @@ package mast
 // Theory: key layers (C14). lay(v,b) is the published layer function: the number of times
 // b divides v, 0 for v = 0.
 
+//@ theory lay
 //@ smt (declare-fun lay (Int Int) Int)
 //@ smt (assert (forall ((v Int) (b Int)) (! (=> (>= b 2) (= (lay v b) (ite (and (not (= v 0)) (= (mod v b) 0)) (+ 1 (lay (div v b) b)) 0))) :pattern ((lay v b)))))
 
@@ -34,7 +35,10 @@ package mast
 //@ lemma modneg [C14] (forall ((v Int) (b Int)) (! (=> (not (= b 0)) (= (= (mod (- v) b) 0) (= (mod v b) 0))) :pattern ((mod (- v) b))))
 //@ lemma divneg [C14] (forall ((v Int) (b Int)) (! (=> (and (not (= b 0)) (= (mod v b) 0)) (= (div (- v) b) (- (div v b)))) :pattern ((div (- v) b))))
 
+//@ endtheory
+
 //@ func uintLayer
+//@ uses lay
 //@ tags C14
 //@ pure
 //@ requires bf [C14] (>= branchFactor 2)
@@ -42,6 +46,7 @@ package mast
 //@ loop 1 invariant acc [C14] (and (>= v' 0) (= (mod (+ layer (lay v' branchFactor)) 256) (mod (lay v branchFactor) 256)))
 
 //@ func intLayer
+//@ uses lay
 //@ tags C14
 //@ pure
 //@ requires bf [C14] (and (>= branchFactor 2) (< branchFactor 9223372036854775808))
@@ -76,10 +81,12 @@ package mast
 //@ smt (define-fun FreshArrays ((h Heap) (r Int) (w Int)) Bool (and (> (sl.arr (Node.Key h r)) w) (> (sl.arr (Node.Value h r)) w) (> (sl.arr (Node.Link h r)) w) (distinct (sl.arr (Node.Key h r)) (sl.arr (Node.Value h r)) (sl.arr (Node.Link h r))) (= (sl.off (Node.Key h r)) 0) (= (sl.off (Node.Value h r)) 0) (= (sl.off (Node.Link h r)) 0)))
 
 // A1: the key order is a total preorder (0 means "same key", not identity).
+//@ theory ord
 //@ smt (declare-fun ord (Any Any) Int)
 //@ smt (assert (forall ((a Any)) (! (= (ord a a) 0) :pattern ((ord a a)))))
 //@ smt (assert (forall ((a Any) (b Any)) (! (and (= (< (ord a b) 0) (> (ord b a) 0)) (= (= (ord a b) 0) (= (ord b a) 0))) :pattern ((ord a b)))))
 //@ smt (assert (forall ((a Any) (b Any) (c Any)) (! (=> (and (<= (ord a b) 0) (<= (ord b c) 0)) (and (<= (ord a c) 0) (=> (or (< (ord a b) 0) (< (ord b c) 0)) (< (ord a c) 0)))) :pattern ((ord a b) (ord b c)))))
+//@ endtheory
 // `healthy`: no abstract callee (store, comparator, layer function, marshaler) fails in this activation.
 //@ smt (declare-fun healthy () Bool)
 //@ smt (declare-fun layerOf (Any Int) Int)
@@ -164,6 +171,7 @@ package mast
 //@ ensures shape (and (= (nkeys H result) 0) (= (nvals H result) 0) (= (nlinks H result) 1) (isNil (LinkAt H result 0)))
 //@ ensures caps (and (= (sl.cap (Node.Key H result)) branchFactor) (= (sl.cap (Node.Value H result)) branchFactor) (= (sl.cap (Node.Link H result)) (+ branchFactor 1)))
 //@ ensures flags (and (not (mastNode.dirty H result)) (not (mastNode.shared H result)) (= (mastNode.expected H result) 0) (= (mastNode.source H result) 0))
+//@ ensures closure (=> (AllOK H0) (AllOK H))
 
 //@ func (*mastNode).xcopy
 //@ tags C01 C02 C11
@@ -173,3 +181,88 @@ package mast
 //@ ensures seqs [C02] (SameSeqs H result H0 node)
 //@ ensures caps (and (= (sl.cap (Node.Key H result)) (sl.cap (Node.Key H0 node))) (= (sl.cap (Node.Value H result)) (sl.cap (Node.Value H0 node))) (= (sl.cap (Node.Link H result)) (sl.cap (Node.Link H0 node))))
 //@ ensures flags [C02] (and (= (mastNode.dirty H result) (mastNode.dirty H0 node)) (= (mastNode.shared H result) (mastNode.shared H0 node)) (= (mastNode.expected H result) 0) (= (mastNode.source H result) 0))
+
+// ---------------------------------------------------------------------------------------
+// Copy-on-write guards (automatic obligations at every store into a node, C02 / C11).
+// A node may be written only if it was allocated by the running activation or is not shared.
+
+//@ guardrule cow [C02 C11] comps=Node.Key,Node.Value,Node.Link (or (> r W0) (not (mastNode.shared H r)))
+//@ guardrule cowelem [C02 C11] comps=Arr.Any elem (or (> arr W0) (and hasprov (or (> r W0) (not (mastNode.shared H r)))))
+//@ guardrule flags [C11] comps=mastNode.dirty,mastNode.shared,mastNode.expected,mastNode.source (or (> r W0) (not (mastNode.shared H r)))
+
+// ---------------------------------------------------------------------------------------
+// Tree-level predicates.
+// AllOK: every node-shaped object has only nil / name / node links, and its node links point to
+// node-shaped objects (the closure that makes every traversal index-safe).
+//@ smt (define-fun LinksOK ((h Heap) (r Int)) Bool (forall ((i Int)) (! (=> (and (<= 0 i) (< i (nlinks h r))) (and (LinkOK (LinkAt h r i)) (=> (isPtr (LinkAt h r i)) (Shape h (a.val (LinkAt h r i)))))) :pattern ((LinkAt h r i)))))
+//@ smt (define-fun AllOK ((h Heap)) Bool (forall ((r Int)) (! (=> (Shape h r) (LinksOK h r)) :pattern ((Node.Link h r)))))
+//@ smt (define-fun MastCfg ((h Heap) (m Int)) Bool (and (> m 0) (>= (Mast.branchFactor h m) 2) (< (Mast.branchFactor h m) 1073741824) (not (= (Mast.keyOrder h m) 0)) (not (= (Mast.keyLayer h m) 0)) (RootOK h m) (=> (isPtr (Mast.root h m)) (Shape h (a.val (Mast.root h m))))))
+// OldSame: nothing that existed at watermark w has changed between h0 and h (nodes, flags, array contents)
+//@ smt (define-fun NodeSame ((h0 Heap) (h Heap) (r Int)) Bool (and (= (Node.Key h r) (Node.Key h0 r)) (= (Node.Value h r) (Node.Value h0 r)) (= (Node.Link h r) (Node.Link h0 r)) (= (mastNode.dirty h r) (mastNode.dirty h0 r)) (= (mastNode.shared h r) (mastNode.shared h0 r)) (= (mastNode.source h r) (mastNode.source h0 r)) (= (mastNode.expected h r) (mastNode.expected h0 r))))
+
+//@ ghost G.loads Int
+
+//@ func validateNode
+//@ tags C01 C19
+//@ safe-under healthy
+//@ pure
+//@ requires nn (and (> node 0) (> mast 0) (not (= (Mast.keyOrder H mast) 0)))
+//@ requires shape [C01] (Shape H node)
+//@ requires sorted2 [C01] (=> (>= (nkeys H node) 2) (< (ord (KeyAt H node 0) (KeyAt H node 1)) 0))
+
+//@ func (*mastNode).ToMut
+//@ tags C01 C02 C11
+//@ safe-under healthy
+//@ modifies W Arr.Any@fresh Node.*@fresh mastNode.*@fresh
+//@ requires nn (and (> node 0) (> mast 0) (not (= (Mast.keyOrder H mast) 0)))
+//@ requires shape [C01] (Shape H node)
+//@ requires sorted2 [C01] (=> (>= (nkeys H node) 2) (< (ord (KeyAt H node 0) (KeyAt H node 1)) 0))
+//@ ensures same [C02] (=> (not (mastNode.shared H0 node)) (and (= result node) (= H H0)))
+//@ ensures copy [C02] (=> (mastNode.shared H0 node) (and (> result W0) (<= result W) (FreshArrays H result W0) (SameSeqs H result H0 node) (not (mastNode.shared H result)) (= (mastNode.expected H result) node) (= (mastNode.source H result) 0) (= (mastNode.dirty H result) (mastNode.dirty H0 node))))
+//@ ensures caps (and (= (sl.cap (Node.Key H result)) (sl.cap (Node.Key H0 node))) (= (sl.cap (Node.Value H result)) (sl.cap (Node.Value H0 node))) (= (sl.cap (Node.Link H result)) (sl.cap (Node.Link H0 node))))
+//@ ensures unshared [C02] (and (> result 0) (not (mastNode.shared H result)))
+
+// ---------------------------------------------------------------------------------------
+// Loading
+
+//@ assumption A3/A4: loadPersisted (store access, node cache, decoding via reflection) is entered through a trusted contract: a successfully loaded node is shared, has a source name, has the n/n/n+1 shape and only nil or name links, or is an already existing shared node handed out by the cache; at most one Persist.Load per call
+//@ func (*Mast).loadPersisted
+//@ trusted
+//@ tags C01 C02 C10 C11 C12 C16
+//@ modifies W G.loads Arr.Any@fresh Node.*@fresh mastNode.*@fresh Box.Bytes@fresh
+//@ requires nn (> m 0)
+//@ ensures ok (=> (= err anil) (and (> result0 0) (<= result0 W) (Shape H result0) (mastNode.shared H result0) (not (mastNode.dirty H result0)) (LinksOK H result0)))
+//@ ensures fresharrays (=> (and (= err anil) (> result0 W0)) (FreshArrays H result0 W0))
+//@ ensures fail (=> (isErr err) (= result0 0))
+//@ ensures loads (and (>= (G.loads H) (G.loads H0)) (<= (G.loads H) (+ (G.loads H0) 1)))
+//@ ensures closure (=> (AllOK H0) (AllOK H))
+//@ ensures healthy (=> healthy (= err anil))
+
+//@ func (*Mast).load
+//@ tags C01 C02 C10 C11 C12 C16
+//@ modifies W G.loads Arr.Any@fresh Node.*@fresh mastNode.*@fresh Box.Bytes@fresh
+//@ requires nn (> m 0)
+//@ requires ptrok (=> (= (a.tid link) tid.PmastNode) (and (> (a.val link) 0) (Shape H (a.val link))))
+//@ ensures ptr (=> (isPtr link) (and (= err anil) (= result0 (a.val link)) (= H H0)))
+//@ ensures name (=> (and (isName link) (= err anil)) (and (> result0 0) (<= result0 W) (Shape H result0) (mastNode.shared H result0) (LinksOK H result0)))
+//@ ensures other (=> (and (not (isName link)) (not (= (a.tid link) tid.PmastNode))) (isErr err))
+//@ ensures ok (=> (= err anil) (and (> result0 0) (Shape H result0)))
+//@ ensures fail (=> (isErr err) (= result0 0))
+//@ ensures loads (and (>= (G.loads H) (G.loads H0)) (<= (G.loads H) (+ (G.loads H0) (ite (isName link) 1 0))))
+//@ ensures closure (=> (AllOK H0) (AllOK H))
+//@ ensures healthy (=> (and healthy (or (isName link) (isPtr link))) (= err anil))
+
+//@ func (*mastNode).follow
+//@ tags C01 C02 C10 C11 C12 C16
+//@ modifies W G.loads Arr.Any@fresh Node.*@fresh mastNode.*@fresh Box.Bytes@fresh
+//@ requires nn (and (> node 0) (> mast 0))
+//@ requires idx (and (<= 0 i) (< i (nlinks H node)))
+//@ requires links (and (Shape H node) (LinksOK H node))
+//@ requires cap (< (sl.cap (Node.Key H node)) 4611686018427387904)
+//@ ensures down (=> (and (not (isNil (LinkAt H0 node i))) (= err anil)) (and (> result0 0) (Shape H result0)))
+//@ ensures stay (=> (and (isNil (LinkAt H0 node i)) (not createOk)) (and (= err anil) (= result0 node) (= H H0)))
+//@ ensures create (=> (and (isNil (LinkAt H0 node i)) createOk) (and (= err anil) (> result0 W0) (<= result0 W) (FreshArrays H result0 W0) (= (nkeys H result0) 0) (= (nvals H result0) 0) (= (nlinks H result0) 1) (isNil (LinkAt H result0 0)) (not (mastNode.shared H result0)) (not (mastNode.dirty H result0))))
+//@ ensures ok (=> (= err anil) (and (> result0 0) (Shape H result0)))
+//@ ensures loads (and (>= (G.loads H) (G.loads H0)) (<= (G.loads H) (+ (G.loads H0) 1)))
+//@ ensures closure (=> (AllOK H0) (AllOK H))
+//@ ensures healthy (=> healthy (= err anil))
